@@ -666,8 +666,9 @@ class DFA:
 
     def mark_accepting(self, state):
         if isinstance(state, int):
-            self.accepting_states.append(DFState.all_states[state])
-        else:
+            state = DFState.all_states[state]
+        # accepting_states is used as an ordered set: a duplicate would receive chained actions twice and survive a single remove()
+        if state not in self.accepting_states:
             self.accepting_states.append(state)
 
     def simulate(self, actions):
